@@ -254,7 +254,7 @@ class QueryPlanner:
                 if node.namespace is not None or node.op.lower() in ('llm',):
                     user_functions.append(node)
 
-            if isinstance(node, Select) and node.cte is not None:
+            if isinstance(node, (Select, Union, Except, Intersect)) and node.cte is not None:
                 # is called before the expressions and the references to them are visited
                 for cte in node.cte:
                     cte_names.add(cte.name.parts[-1].lower())
@@ -842,11 +842,11 @@ class QueryPlanner:
 
     def plan_select(self, query, integration=None):
 
-        if isinstance(query, (Union, Except, Intersect)):
-            return self.plan_union(query, integration=integration)
-
         if query.cte is not None:
             self.plan_cte(query)
+
+        if isinstance(query, (Union, Except, Intersect)):
+            return self.plan_union(query, integration=integration)
 
         from_table = query.from_table
 
